@@ -212,6 +212,21 @@ def run_postsel(shard, rec, B):
         tg, tp, _ = O.random_tableau(rng, N, r=0)
         og, op = gen.commuting_hermitian_list(rng, tg, tp, 0, 1)
         ps_case(rec, B, tg, tp, og[0], int(op[0]), int(rng.integers(2)))
+    # result given as numpy integer / python bool
+    for t in range(20):
+        N = int(rng.integers(1, 4))
+        tg, tp, _ = O.random_tableau(rng, N, r=0)
+        og, op = gen.commuting_hermitian_list(rng, tg, tp, 0, 1)
+        res = int(rng.integers(2))
+        for form, val in (("np.int64", np.int64(res)), ("bool", bool(res)), ("np.int32", np.int32(res))):
+            S = B.State(tg.copy(), tp.copy(), 0)
+            G = O.GroupState.from_tableau(tg, tp, 0)
+            want = G.project(og[0], int(op[0]), res)
+            ok, pr = rec.attempt("ps.resform." + form, [N, form], lambda: S.postselect(B.Pauli(og[0].copy(), int(op[0])), val))
+            if ok:
+                lg, lp, lr = B.state(S)
+                rec.check("ps.resform." + form, abs(float(pr) - want) < 1e-12 and (want == 0 or O.state_key(lg, lp, lr) == G.key()),
+                          {"state": _show(tg[:N], tp[:N]), "pauli": O.show(og[0], op[0]), "result": res, "form": form}, True, expected=want, observed=float(pr))
     # mixed receivers are refused
     for t in range(10):
         N = int(rng.integers(1, 4))
@@ -261,7 +276,7 @@ def build_circuit(B, items, N):
             inserted.append(g)
         else:
             before = circ.last_layer
-            circ.measure(*x)
+            circ.measure(*[np.int64(q) if (len(inserted) + q) % 3 == 0 else q for q in x])
             inserted.append(circ.last_layer)
     return circ, inserted
 
